@@ -7,7 +7,8 @@ import random
 
 from .. import models
 from ..oracles import C01Monitor, trace_summary
-from ..world import EnumPlan, InternalError, Runner, World
+from .. import wire
+from ..world import EnumPlan, InternalError, Plan, Runner, World
 
 PROP = "C12"
 LEVEL = "fault_enumeration"
@@ -39,8 +40,37 @@ def clean_shape(key):
         return r.rounds, r.emit_idx
 
 
+class MdLostRacePlan(Plan):
+    """Every Metadata PDU is lost; an EOF (cancel) reaches the receiver in the very call which notices its next timer expiry."""
+
+    def on_emit(self, idx, item):
+        d = item["d"]
+        if item["side"] == "S" and d.get("kind") == "MD":
+            self.applied.append((idx, "drop", wire.short(d), "S"))
+            return []
+        if item["side"] == "S" and d.get("kind") == "EOF" and d.get("cond") != "NO_ERROR":
+            self.applied.append((idx, "race", wire.short(d), "S"))
+            return [("race", item["raw"])]
+        return [("now", item["raw"])]
+
+
+@functools.lru_cache(maxsize=None)
+def md_lost_rounds(key):
+    with World(dict(key)) as w:
+        r = Runner(w, plan=MdLostRacePlan(), max_expiries=12, max_rounds=400)
+        w.put()
+        r.run()
+        return r.rounds
+
+
 def gen_cases(tier, seed):
     cases = []
+    # the Metadata PDU never arrives: the receiver's deferred procedure re-requests it until the NAK limit; the sender's user cancels at
+    # every round of that, and the EOF (cancel) is handed over together with the receiver's next timer expiry
+    for limit, imm in itertools.product((2, 3), (False,)):  # (with immediate NAKs every File Data PDU without metadata triggers a re-request)
+        cfg = dict(base("ack", False, False, "crc32", 9), nak_limit=limit, imm_nak=imm)
+        for r in range(md_lost_rounds(tuple(sorted(cfg.items()))) + 1):
+            cases.append({"cfg": cfg, "side": "S", "round": r, "wrong": False, "drop": None, "md_lost_race": True})
     for mode, closure, disp, cks, size in itertools.product(("ack", "unack"), (False, True), (False, True), ("crc32", "modular"), (0, 4, 13)):
         cfg = base(mode, closure, disp, cks, size)
         rounds, nemit = clean_shape(tuple(sorted(cfg.items())))
@@ -96,6 +126,9 @@ def run_case(case):
             plan = RandomPlan(case["rand"], {"drop": 0.08, "dup": 0.05, "delay": 0.05, "late": 0.02}, max_faults=3)
         else:
             plan = EnumPlan({} if case["drop"] is None else {case["drop"]: "drop"})
+        if case.get("md_lost_race"):
+            plan = MdLostRacePlan()
+            obs["cancels_with_metadata_never_arriving"] = 1
         acts = {case["round"]: [("cancel", case["side"]) + (("wrong",) if case["wrong"] else ())]}
         if case.get("busy_put") is not None:
             acts.setdefault(case["busy_put"], []).insert(0, ("put_third",))
@@ -260,5 +293,5 @@ def exhaustive(tier):
     return False
 
 
-REQUIRED = {"refused_put_requests_before_cancel": 50, "sender_cancels": 50, "receiver_cancels": 50, "eof_cancel_checked": 30, "eof_cancel_mid_file": 5, "eof_cancel_completion_checked": 20,
+REQUIRED = {"cancels_with_metadata_never_arriving": 20, "refused_put_requests_before_cancel": 50, "sender_cancels": 50, "receiver_cancels": 50, "eof_cancel_checked": 30, "eof_cancel_mid_file": 5, "eof_cancel_completion_checked": 20,
             "receiver_cancel_finished_pdu_checked": 20, "file_deletions_expected": 5, "file_presence_judged": 20, "judged_on_reused_handlers": 100}
